@@ -81,6 +81,76 @@ func checkC07(c *Ctx) {
 		r.Check(ok2, "C07.save-every-command", fnName(SWC)+":Save", p.Pos(SWC.Pos()), "SaveWithCommand always calls Save", "SaveWithCommand can return without calling Save")
 	}
 
+	// ---- commands around the save protocol (K1)
+	r.Rule("C07.undo-no-save", "K1", "the undo / redo commands do not save a state before calling Undo()/Redo() (a save inside an undo chain truncates the undone states and resets the position)", 3)
+	reg := p.Registry()
+	for _, cmd := range []string{"undo", "vi-undo", "redo"} {
+		f := reg.Cmds[cmd]
+		if f == nil {
+			r.Unk("C07.undo-no-save", "command:"+cmd, "-", "not registered")
+			continue
+		}
+		r.Fn(fnName(f))
+		isUR := func(in ssa.Instruction) bool {
+			return isCallTo(in, "(*history.Sources).Undo", "(*history.Sources).Redo")
+		}
+		isSave := func(in ssa.Instruction) bool {
+			return isCallTo(in, "(*history.Sources).Save", "(*history.Sources).SaveWithCommand")
+		}
+		var bad ssa.Instruction
+		eachInstr(f, func(in ssa.Instruction) {
+			if isSave(in) && pathAvoiding(f, in, isUR, nil) != nil {
+				bad = in
+			}
+		})
+		has := false
+		eachInstr(f, func(in ssa.Instruction) {
+			if isUR(in) {
+				has = true
+			}
+		})
+		r.Check(has && bad == nil, "C07.undo-no-save", "command:"+cmd, p.Pos(f.Pos()), "calls Undo/Redo with no prior Save", cmd+" saves a state before undoing/redoing (or no longer calls Undo/Redo): n undos followed by n redos do not come back to the starting text")
+	}
+	r.Rule("C07.walk-not-skipped", "K1", "a command that recalls a history line (Sources.Walk / Fetch) does not also skip the post-command save: the recalled text becomes that line's initial undo state", 6)
+	for _, cmd := range reg.Names() {
+		f := reg.Cmds[cmd]
+		isWalk := func(in ssa.Instruction) bool {
+			return isCallTo(in, "(*history.Sources).Walk", "(*history.Sources).Fetch")
+		}
+		isSkip := func(in ssa.Instruction) bool { return isCallTo(in, "(*history.Sources).SkipSave") }
+		var walks []ssa.Instruction
+		eachInstr(f, func(in ssa.Instruction) {
+			if isWalk(in) {
+				walks = append(walks, in)
+			}
+		})
+		if len(walks) == 0 {
+			continue
+		}
+		r.Fn(fnName(f))
+		// a Save() call consumes a pending skip (its deferred Reset clears the flag)
+		isSaveCall := func(in ssa.Instruction) bool { return isCallTo(in, "(*history.Sources).Save") }
+		bad := false
+		eachInstr(f, func(in ssa.Instruction) {
+			if isSkip(in) {
+				// skip still pending when a Walk executes and at return
+				if w := pathAvoiding(f, in, isWalk, isSaveCall); w != nil {
+					if pathAvoiding(f, w, isReturn, isSaveCall) != nil {
+						bad = true
+					}
+				}
+			}
+			if isWalk(in) {
+				if s := pathAvoiding(f, in, isSkip, nil); s != nil {
+					if pathAvoiding(f, s, isReturn, isSaveCall) != nil {
+						bad = true
+					}
+				}
+			}
+		})
+		r.Check(!bad, "C07.walk-not-skipped", "command:"+cmd, p.Pos(f.Pos()), "no SkipSave on a path that recalls a history line", cmd+" recalls a history line and skips the post-command save on the same path: the recalled text is never an undo state of that line, so repeated undo cannot reach the line's initial content")
+	}
+
 	// ---- undo flags (K1)
 	r.Rule("C07.undo-flags", "K1", "Undo and Redo store skip = true and undoing = true on every path", 4)
 	for _, f := range []*ssa.Function{UNDO, REDO} {
